@@ -32,7 +32,7 @@ const (
 func init() {
 	register(Property{ID: "C01", Level: "other", Run: runC01,
 		Technique: "static analysis: must-pass-through path conditions on the SSA control-flow graph (go/ssa), guarded-by lock rule",
-		Text:      "Decides, for every path through authenticateWithUser / matchesPermission / Credential.Check / authenticateInternal / Authenticate, that an admitting return carries the IP, permission and credential tests with exactly the stated operands, that a rejecting return follows a failed test, that AskCredentials is the documented conjunction and that InternalUsers is accessed under the manager mutex. This is the shape of the decision procedure on all paths (what tests sample); it is not a proof of the iff over values because regexp, CIDR and hash arithmetic are library code.",
+		Text:      "Decides, for every path through authenticateWithUser / matchesPermission / Credential.Check / authenticateInternal / Authenticate, that an admitting return carries the IP, permission and credential tests with exactly the stated operands, that a rejecting return follows a failed test, that AskCredentials is the documented conjunction and that InternalUsers is accessed under the manager mutex; and (round 4) that the network a configured IP/CIDR text is turned into (conf.IPNetwork.UnmarshalJSON, module code) pairs the address with the mask of the same text aligned to the same bytes: for an address cut to IPv4 with To4() the mask is the trailing 4 bytes (or all) of the parsed mask for every length ParseCIDR can return, so that IPv4-mapped IPv6 CIDRs keep their prefix length. This is the shape of the decision procedure on all paths (what tests sample); it is not a proof of the iff over values because regexp, CIDR and hash arithmetic are library code.",
 		Note:      "trusted: go/types+go/ssa construction; regexp, net, crypto/subtle, argon2 semantics; rules are matched on resolved callees and canonical operand paths"})
 	addMutants(
 		Mutant{"C01", "drop-ip-test", "internal/auth/manager.go",
@@ -49,6 +49,17 @@ func init() {
 			"\tm.mutex.RLock()\n\tdefer m.mutex.RUnlock()\n\n\tfor _, u := range m.InternalUsers", "\tfor _, u := range m.InternalUsers", "C01.guarded_by"},
 		Mutant{"C01", "regex-on-wrong-operand", "internal/auth/manager.go",
 			"regexp.MatchString(req.Path)", "regexp.MatchString(perm.Path)", "C01.perm"},
+		// round 4: the configured network is not the one the text denotes
+		Mutant{"C01", "ipv4-mask-leading-bytes", "internal/conf/ip_network.go",
+			"ipnet.Mask[len(ipnet.Mask)-4 : len(ipnet.Mask)]", "ipnet.Mask[:net.IPv4len]", "C01.ip_network.mask"},
+		Mutant{"C01", "ipv4-mask-cut-assuming-16-bytes", "internal/conf/ip_network.go",
+			"ipnet.Mask[len(ipnet.Mask)-4 : len(ipnet.Mask)]", "ipnet.Mask[12:]", "C01.ip_network.mask"},
+		Mutant{"C01", "ipv6-address-with-ipv4-mask", "internal/conf/ip_network.go",
+			"IP: ip, Mask: net.CIDRMask(128, 128)", "IP: ip, Mask: net.CIDRMask(32, 32)", "C01.ip_network.mask"},
+		Mutant{"C01", "cidr-prefix-dropped-for-ipv4", "internal/conf/ip_network.go",
+			"Mask: ipnet.Mask[len(ipnet.Mask)-4 : len(ipnet.Mask)]", "Mask: net.CIDRMask(32, 32)", "C01.ip_network.mask"},
+		Mutant{"C01", "network-contains-compares-addresses-only", "internal/conf/ip_network.go",
+			"	return ipnet.Contains(ip)", "	return ipnet.IP.Equal(ip)", "C01.ip_network.contains"},
 	)
 }
 
@@ -63,6 +74,11 @@ func runC01(c *Ctx) {
 		"AskCredentials is the four-way conjunction; InternalUsers is accessed under Manager.mutex. " +
 		"Not decided: regexp/CIDR/hash arithmetic in stdlib/argon2 (trusted)."
 	c.Assume = []string{"regexp, net.IPNet.Contains, crypto/subtle, argon2 behave as documented"}
+
+	defer dumpObls(c)
+	c.Explain += " Round 4 (prop_r4_c01.go, C01.ip_network.*): abstract evaluation of every (IP, Mask) pair conf.IPNetwork.UnmarshalJSON stores, for both mask lengths net.ParseCIDR returns (4; 16 for IPv6 and IPv4-mapped IPv6 text): the mask is the parsed network's own, whole or - for an address normalised with To4() - its TRAILING 4 bytes; a bare address gets CIDRMask(32,32) only when known IPv4, else CIDRMask(128,128); the text parsed is the decoded JSON string; IPNetwork.Contains is net.IPNet.Contains of that pair."
+	// --- the networks of a user entry are what the configuration text denotes
+	c.c01IPNetworkR4(p)
 
 	// --- authenticateWithUser
 	wu := c.fn(p, "internal/auth", "Manager", "authenticateWithUser")
